@@ -64,6 +64,25 @@ func (e *CodecErr) FromJSONRPCError(j jsonrpc.JSONRPCError) error {
 	return nil
 }
 
+// QuotaErr: registered by value; its decoder (pointer receiver) is strict and
+// rejects what its own encoder produces, so the conversion on the client fails.
+type QuotaErr struct{ N int64 }
+
+const quotaCode = 88
+
+func (e QuotaErr) Error() string { return "quota" }
+func (e QuotaErr) ToJSONRPCError() (jsonrpc.JSONRPCError, error) {
+	return jsonrpc.JSONRPCError{Code: quotaCode, Message: "quota exceeded"}, nil
+}
+func (e *QuotaErr) FromJSONRPCError(j jsonrpc.JSONRPCError) error {
+	s, ok := j.Data.(string)
+	if !ok {
+		return errors.New("quota error without details")
+	}
+	e.N = int64(len(s))
+	return nil
+}
+
 type H struct {
 	kind int
 	msg  string
@@ -83,6 +102,8 @@ func (h *H) mk() error {
 		return ValErr{Tag: "t"}
 	case 4:
 		return &CodecErr{Detail: h.msg, K: h.n}
+	case 5:
+		return QuotaErr{N: h.n}
 	}
 	return nil
 }
@@ -121,12 +142,13 @@ func table(which int, altCodes bool) *jsonrpc.Errors {
 	}
 	e.Register(cv, new(ValErr))
 	e.Register(codecCode, new(*CodecErr))
+	e.Register(quotaCode, new(QuotaErr))
 	return &e
 }
 
 // HarnessErrors: handler outcome x error type x registration tables x method shape x transport.
 func HarnessErrors() {
-	h := &H{kind: verif.Choice("kind", 5), msg: verif.String("msg", 3), n: verif.Int("n")}
+	h := &H{kind: verif.Choice("kind", 6), msg: verif.String("msg", 3), n: verif.Int("n")}
 	verif.Assume(h.n >= -(1<<53) && h.n <= 1<<53)
 	srvTab := verif.Choice("server_table", 3)
 	cliTab := verif.Choice("client_table", 3)
@@ -225,6 +247,11 @@ func HarnessErrors() {
 		} else {
 			verif.Assert(got != nil, "conversion-never-nil")
 		}
+	case 5:
+		// the conversion fails on the client (strict decoder): it must degrade to the generic error
+		// (the value form does not implement the codec interface, so the server sends the plain message
+		// under the registered code, or 1 without a server table)
+		generic("quota", srvCode(srvTab != 0, quotaCode))
 	case 4:
 		// codec errors carry their own code, whatever the server table says
 		if cliTab != 0 {
